@@ -49,6 +49,22 @@ static size_t heap0;
 static long   heap_delta;
 static int    heap_measured;
 
+// descriptors open now (what a call opened it must have closed when it returns, on every path)
+static int count_open_fds(void)
+{
+  int  n = 0;
+  DIR* d = opendir("/proc/self/fd");
+  if (d) {
+    while (readdir(d)) {
+      ++n;
+    }
+    closedir(d);
+  }
+  return n;
+}
+static int fds0;
+static int fds_delta;
+
 static size_t heap_now(void)
 {
   return __sanitizer_get_current_allocated_bytes ? __sanitizer_get_current_allocated_bytes() : 0U;
@@ -90,6 +106,7 @@ static void report_tail(size_t spurious)
   } else {
     printf(" libc=-");
   }
+  printf(" fds=%d", heap_measured ? fds_delta : 0);
   if (V.errors) {
     printf(" first_error=\"%s\"", V.first_error);
   }
@@ -575,6 +592,7 @@ static void run_fs(char** a, int n)
   snprintf(p1, sizeof(p1), "%s/a", scratch);
   snprintf(p2, sizeof(p2), "%s/b", scratch);
   const size_t size = n > 1 ? strtoul(a[1], 0, 10) : 0;
+  fds0  = count_open_fds();
   heap0 = heap_now();
   if (!strcmp(a[0], "mkdirs")) {
     // optional argument: total length of the path (boundary cases of any fixed-size buffer inside the function)
@@ -685,6 +703,7 @@ static void run_fs(char** a, int n)
     printf("?");
   }
   heap_delta    = (long)heap_now() - (long)heap0;
+  fds_delta     = count_open_fds() - fds0;
   heap_measured = 1;
   report_tail(0);
 }
